@@ -18,9 +18,9 @@ import (
 func init() {
 	Register(&Check{
 		Spec: core.Spec{ID: "C22", Level: "exploration",
-			Rule:        "case = data set of 8-60 files behind an instrumented DataStore whose Reads sleep 0.2-2 ms (so they overlap) and keep an in-flight gauge; phase A runs 2-32 concurrent queries on one engine with MaxQueryConcurrency in {1,2,3,4,8} and checks max in-flight Reads <= MaxQueryConcurrency; phase B parks 1-8 queries whose consumers never call Next (enough matches to fill their row channels) and requires every other query to complete (bounded progress, stuck detector); under -race with PRNG delays at the tagged schedule points; non-trivial = phase in which >= 2 Reads overlapped or a stalled query was parked with a full row channel; distinct = distinct (data set, concurrency, query count, phase)",
+			Rule:        "case = data set of 8-60 files behind an instrumented DataStore whose Reads sleep 0.2-2 ms (so they overlap) and keep an in-flight gauge; every fourth data set also holds 2-5 externally written files whose block filter sections are laid out in the reverse of the row-data order (no forward read covers two of them, so a file's filter pass is a series of reads); phase A runs 2-32 concurrent queries on one engine with MaxQueryConcurrency in {1,2,3,4,8} and checks max in-flight Reads <= MaxQueryConcurrency; phase B parks 1-8 queries whose consumers never call Next (enough matches to fill their row channels) and requires every other query to complete (bounded progress, stuck detector); under -race with PRNG delays at the tagged schedule points; non-trivial = phase in which >= 2 Reads overlapped or a stalled query was parked with a full row channel; distinct = distinct (data set, concurrency, query count, phase)",
 			Assumptions: []string{"the gauge counts DataStore Read calls in progress on handles opened by queries (no merge or inventory runs during the window)", "bounded progress as in C20"},
-			Floors:      map[string]int64{"phaseA_runs": 20, "phaseB_runs": 20, "reads_observed": 2000, "runs_with_overlap": 10}},
+			Floors:      map[string]int64{"phaseA_runs": 20, "phaseB_runs": 20, "reads_observed": 2000, "runs_with_overlap": 10, "cases_with_multi_chunk_filter_regions": 4}},
 		Cases:       func(t string) int { return nQueries(t, 32, 800) },
 		Run:         runC22,
 		RaceMatters: true,
@@ -63,6 +63,19 @@ func runC22(rc *RunCtx, i int) {
 		}
 		total -= n
 	}
+	bigRegions := i%4 == 3
+	if bigRegions {
+		// externally written files whose block filter regions span several read chunks: the
+		// filter pass of one file is then a series of reads, each of which counts
+		w.ExtReverseSections = true
+		for k, nf := 0, r.Range(2, 5); k < nf; k++ {
+			if _, err := w.AddExtFile(r.Split(fmt.Sprint("bigregion", k)), 0, r.Range(12, 40), 0); err != nil {
+				rc.Violate(i, "scenario-failed", "", err.Error(), nil)
+				return
+			}
+		}
+		rc.Res.Count("cases_with_multi_chunk_filter_regions", 1)
+	}
 	stored := 0
 	for _, rec := range w.StoredRecs() {
 		stored += rec.Count
@@ -81,6 +94,9 @@ func runC22(rc *RunCtx, i int) {
 
 	// ---- phase A: in-flight read gauge
 	nq := r.Range(2, 32)
+	if bigRegions {
+		nq = r.Range(3, 24)
+	}
 	w.IData.MaxInflight.Store(0)
 	reads0 := log.Count("Read")
 	var wg sync.WaitGroup
